@@ -336,6 +336,23 @@ func checkC03(c *Ctx) {
 		R.lost("C03.syn", "pkg/syntax/zh.parsePunctuations")
 	}
 	pairs := [][2]string{{"TypeObjDotW", "TypeObjDotIIW"}, {"TypeAssignW", "TypeAssignMark"}}
+	// the productions of dictionary literals (they build a HashMapExpr, or are helpers called only from such
+	// productions): there '=' alone is the key = value sign / the empty-dictionary mark, not the assignment synonym
+	mapLiteralFns := map[string]bool{}
+	for _, g := range u.srcFuncs("pkg/syntax/zh") {
+		for _, in := range instrsOf(g) {
+			if fa, ok := in.(*ssa.FieldAddr); ok && strings.HasPrefix(fieldAddrName(fa), "HashMapExpr.") {
+				top := g
+				for top.Parent() != nil {
+					top = top.Parent()
+				}
+				mapLiteralFns[strings.TrimPrefix(u.fname(top), "pkg/syntax/zh.")] = true
+			}
+		}
+	}
+	for h := range helpersOfAllowed(u, []string{"pkg/syntax/zh"}, func(name string) bool { return mapLiteralFns[strings.TrimPrefix(name, "pkg/syntax/zh.")] }) {
+		mapLiteralFns[strings.TrimPrefix(h, "pkg/syntax/zh.")] = true
+	}
 	for _, s := range sites {
 		for _, pr := range pairs {
 			a, b := s.set[typeConsts[pr[0]]], s.set[typeConsts[pr[1]]]
@@ -343,7 +360,7 @@ func checkC03(c *Ctx) {
 				continue
 			}
 			// '=' alone is legitimate as the map sign / empty-map mark inside brackets
-			if pr[1] == "TypeAssignMark" && b && !a && (s.fn == "ParseArrayExpr" || s.fn == "tryParseEmptyMapList") {
+			if pr[1] == "TypeAssignMark" && b && !a && mapLiteralFns[s.fn] {
 				continue
 			}
 			R.check(a && b, "C03.syn", fmt.Sprintf("%s@%s:%s/%s", s.fn, u.pos(s.pos), pr[0], pr[1]), u.pos(s.pos), "both spellings accepted", "only one of two synonymous spellings is accepted here")
@@ -484,20 +501,28 @@ func checkC03(c *Ctx) {
 		R.lost("C03.yield", "pkg/syntax/zh.ParseFuncCallExpr")
 	}
 	// siblings: every appended hashmap entry is followed by unsetStmtCompleteFlag before the next token is consumed
-	if f := u.ssaFunc("pkg/syntax/zh", "ParseArrayExpr"); f != nil {
+	{
 		n := 0
-		for _, in := range instrsOf(f) {
-			st, ok := in.(*ssa.Store)
-			if !ok {
-				continue
+		var f *ssa.Function
+		var entryStores []*ssa.Store
+		for _, g := range u.srcFuncs("pkg/syntax/zh") {
+			for _, in := range instrsOf(g) {
+				st, ok := in.(*ssa.Store)
+				if !ok {
+					continue
+				}
+				fa, ok := st.Addr.(*ssa.FieldAddr)
+				if !ok || fieldAddrName(fa) != "HashMapExpr.KVPair" {
+					continue
+				}
+				if _, isAppend := st.Val.(*ssa.Call); !isAppend {
+					continue
+				}
+				entryStores = append(entryStores, st)
+				f = g
 			}
-			fa, ok := st.Addr.(*ssa.FieldAddr)
-			if !ok || fieldAddrName(fa) != "HashMapExpr.KVPair" {
-				continue
-			}
-			if _, isAppend := st.Val.(*ssa.Call); !isAppend {
-				continue
-			}
+		}
+		for _, st := range entryStores {
 			n++
 			w := reachableAvoiding(st.Block(), instrIndex(st)+1,
 				func(x ssa.Instruction) bool {
@@ -506,8 +531,8 @@ func checkC03(c *Ctx) {
 				func(x ssa.Instruction) bool { return isCallTo(u, x, "pkg/syntax/zh.ParserZH.unsetStmtCompleteFlag") })
 			R.check(w == nil, "C03.linebreak", fmt.Sprintf("ParseArrayExpr:entry#%d", n), u.pos(st.Pos()), "after a key = value entry the statement-complete flag is reset, so the next entry may start on a new line", "after this entry the statement-complete flag stays set: a following entry on the next line (no comma) is rejected although the layout rules allow it")
 		}
-		if n < 2 {
-			R.viol("C03.linebreak", "ParseArrayExpr:entries", u.pos(f.Pos()), "expected the first-entry and the loop-entry append sites")
+		if n < 2 || f == nil {
+			R.viol("C03.linebreak", "ParseArrayExpr:entries", "", "expected the first-entry and the loop-entry append sites")
 		}
 	}
 
